@@ -46,6 +46,10 @@ def gen_spec(rng, tier, nmin=2, nmax=7, steps=(40, 160), restarts=True,
             spec["shift"] = 1.5
     if rng.random() < 0.15:
         spec["allowmaxlength"] = True
+    if cap is not None and "shift" not in spec and rng.random() < 0.25:
+        # the axis shifted so that the configured interface_cap is exactly
+        # 0.0 (legal, but falsy)
+        spec["shift"] = -cap
     if "wf" not in moves and rng.random() < 0.4:
         # frames two or three lattice steps apart: trajectories jump over
         # interfaces.  Only with shooting everywhere: a trajectory that jumps
